@@ -376,6 +376,13 @@ def check_molecule(case, rec):
     if ref is None:
         return
     check_marks(m, rec, repr(str(m0)), ref, in_gap)
+    # the renumbered copy must not have touched the original: its ring list is still a set of cycles of its own bonds
+    adj0 = mcb.mol_adj(m0)
+    for r in m0.sssr:
+        if any(r[(i + 1) % len(r)] not in adj0.get(r[i], ()) for i in range(len(r))):
+            rec.fail('simple-cycle', f'{str(m0)!r}: after a copy was renumbered the original reports ring {r}, which uses a non-existent bond',
+                     sig='source-after-remap')
+            return
     # numbering independence of the size multiset against the original numbering
     if sorted(map(len, m0.sssr)) != sorted(map(len, rings)) and not in_gap:
         rec.fail('renumbering', f'{str(m0)!r}: ring sizes {sorted(map(len, m0.sssr))} vs {sorted(map(len, rings))} after renumbering')
